@@ -21,6 +21,8 @@ BOUNDS = {
     "thorough": "values: all reals; shapes %s, 4 units per length, categories length+depth, seeded sample of 30000 configurations; a**n n<=8"
                 % exprs.THOROUGH,
 }
+BOUNDS_ALSO = "; also: every scale-only unit of the table times / over the base unit of its quantity type (both orders); operands of the quantity type 'dimensionless' (%, ppm, -, g/kg); empty Array operands (dimension clauses); the quantity-type STRING parsed back against the exponent vector; integer-dtype ndarray auxiliary cases"
+BOUNDS = {k_: v_ + BOUNDS_ALSO for k_, v_ in BOUNDS.items()}
 ASSUMPTIONS = ["A-FP: floats are exact reals", "dimensional model: magnitude = value * prod(slope(tobase_unit)^exp), scale-only units",
                "numeric equality is |a-b| <= 1e-13*(|a|+|b|+1) over the reals", "A-SHIM"]
 CHUNK = 6
